@@ -301,6 +301,18 @@ def _object_bin_events(args):
             objs += [("variant", v1), ("variant", v2),
                      ("variant_collection", VariantIntervalCollection([v1, v2], variant_collection_name="vc")),
                      ("variant_collection", VariantIntervalCollection([v2, v1], variant_collection_name="vc"))]
+            # annotation collections: bounds inferred from the members, given explicitly, and starting at 0 (explicit, and
+            # inferred from a member that starts at 0) -- position 0 is a coordinate, not "no bound"
+            from inscripta.biocantor.gene.collections import AnnotationCollection
+
+            g12 = GeneInterval([mk_tx([[a, a + l1]], st, None, None, transcript_id="c1")], gene_id="gc")
+            objs += [("collection", AnnotationCollection(genes=[g12])),
+                     ("collection", AnnotationCollection(genes=[g12], start=max(0, a - 3), end=b + l2)),
+                     ("collection", AnnotationCollection(genes=[g12], start=0, end=b + l2))]
+            z = rnd.choice([1, 400, 5000, 200000])
+            g0 = GeneInterval([mk_tx([[0, z]], st, None, None, transcript_id="c0")], gene_id="g0")
+            objs += [("collection", AnnotationCollection(genes=[g0])),
+                     ("collection", AnnotationCollection(genes=[g0], start=0, end=z + rnd.choice([0, 1, 7])))]
         except Exception:
             continue
         for kind, o in objs:
